@@ -70,12 +70,12 @@ func (Engine) Runs(tier string) int {
 func (Engine) Meta() core.Meta {
 	return core.Meta{
 		Level: "exploration",
-		Rule: "a case = one conversation: state machine (recipient / identity / identity used as recipient), UI callback subset (each nil / failing / answering, WaitTimer set or not), and a peer script of up to 8 messages over the protocol alphabet (recipient-stanza with index 0/1/-1/non-numeric/missing type, labels first/repeated/empty, file-key valid/duplicate/extra args/bad index, error, msg, request-secret/public, confirm with 0..3 args and bad base64, unknown command, done, malformed framing: no arrow, long body line, missing short line, non-canonical base64, CR, padding), each message delivered whole/per line/per byte, optional stalls of 0/4.9/5.1/60/3600 s before a message (fake clock), peer death before intake / between messages / mid-line / mid-body. Oracle: executable model of the client written from the statement (expected reply per message, final result class and values, well-formed phase-1 transcript), bounded liveness after the peer's last action. Non-trivial = at least one message besides done; distinct = distinct (machine, UI, script skeleton, death point).",
+		Rule: "a case = one conversation: state machine (recipient / identity / identity used as recipient / identity as the first of two identities inside age.Decrypt, where a missing file key must hand over to the next identity and a protocol failure must not), UI callback subset (each nil / failing / answering, WaitTimer set or not), and a peer script of up to 8 messages over the protocol alphabet (recipient-stanza with index 0/1/-1/non-numeric/missing type, labels first/repeated/empty, file-key valid/duplicate/extra args/bad index, error, msg, request-secret/public, confirm with 0..3 args and bad base64, unknown command, done, malformed framing: no arrow, long body line, missing short line, non-canonical base64, CR, padding), each message delivered whole/per line/per byte, optional stalls of 0/4.9/5.1/60/3600 s before a message (fake clock), peer death before intake / between messages / mid-line / mid-body. Oracle: executable model of the client written from the statement (expected reply per message, final result class and values, well-formed phase-1 transcript), bounded liveness after the peer's last action. Non-trivial = at least one message besides done; distinct = distinct (machine, UI, script skeleton, death point).",
 		Assumptions: []string{"where the statement prescribes nothing (malformed confirm, file-key with an empty body) the model only requires termination with an error or a prescribed result", "no timing oracle: WaitTimer firings are probes only", "a peer that stays alive and silent forever is not generated (waiting for it is what the protocol prescribes)", "exec/PATH lookup is replaced by the hook and not observed (C17)"},
 		Real:        []string{"filippo.io/age/plugin client (Recipient.WrapWithLabels, Identity.Unwrap, ClientUI.handle/readStanza)", "internal/format StanzaReader and Stanza.Marshal", "time.AfterFunc on the bubble's fake clock"},
 		Stub:        []string{"plugin process and its pipes (plugin.VerifTransport hook, build tag verif)", "ClientUI callbacks", "wall clock (testing/synctest bubble)"},
 		FaultKinds:  []string{"fault.death_at_start", "fault.death_between_messages", "fault.death_mid_message", "fault.stall", "fault.malformed_framing", "fault.bad_index", "fault.repeated_labels", "fault.duplicate_file_key", "fault.error_message", "fault.unknown_command", "fault.ui_callback_missing_or_failing"},
-		Probes:      []string{"probe.wait_timer_fired", "probe.success_recipient", "probe.success_identity", "probe.incorrect_identity", "probe.error_text_propagated", "probe.zero_stanzas", "probe.fragment_per_byte", "probe.fragment_per_line", "probe.lenient_tail", "probe.prompt_answered", "probe.confirm_answered", "probe.name_checked"},
+		Probes:      []string{"probe.wait_timer_fired", "probe.success_recipient", "probe.success_identity", "probe.incorrect_identity", "probe.error_text_propagated", "probe.zero_stanzas", "probe.fragment_per_byte", "probe.fragment_per_line", "probe.lenient_tail", "probe.prompt_answered", "probe.confirm_answered", "probe.name_checked", "probe.inside_age_decrypt"},
 	}
 }
 
@@ -195,7 +195,7 @@ func genMsg(r *core.RNG, machine string) PMsg {
 
 func (Engine) Generate(r *core.RNG, tier string, idx uint64) interface{} {
 	p := &Plan{DeathAt: -1}
-	p.Machine = []string{"recipient", "identity", "identity", "identity-as-recipient"}[r.Intn(4)]
+	p.Machine = []string{"recipient", "identity", "identity", "identity-as-recipient", "identity-in-decrypt"}[r.Intn(5)]
 	p.Name = []string{"sim", "yubi-key", "a.b_c+d", "x"}[r.Intn(4)]
 	p.NStanzas = r.Range(1, 3)
 	p.UI = UISpec{Display: []string{"nil", "err", "ok"}[r.Intn(3)], Request: []string{"nil", "err", "val"}[r.Intn(3)],
@@ -203,6 +203,9 @@ func (Engine) Generate(r *core.RNG, tier string, idx uint64) interface{} {
 	mach := p.Machine
 	if mach == "identity-as-recipient" {
 		mach = "recipient"
+	}
+	if mach == "identity-in-decrypt" {
+		mach = "identity"
 	}
 	n := r.Range(0, 7)
 	for i := 0; i < n; i++ {
@@ -420,7 +423,7 @@ func reply(t string, args []string, body []byte) string {
 
 func runModel(p *Plan, c *core.Ctx) *expect {
 	e := &expect{}
-	recipient := p.Machine != "identity"
+	recipient := p.Machine != "identity" && p.Machine != "identity-in-decrypt"
 	n := len(p.Msgs)
 	if p.DeathAt >= 0 && p.DeathAt < n {
 		n = p.DeathAt
@@ -674,6 +677,7 @@ func (en Engine) converse(p0 *Plan, c *core.Ctx) (verdict *core.Verdict) {
 	var gotLabels []string
 	var gotKey []byte
 	var gotErr error
+	decOK, decSecond := false, 0
 	live := true
 	func() {
 		defer func() {
@@ -700,6 +704,30 @@ func (en Engine) converse(p0 *Plan, c *core.Ctx) (verdict *core.Verdict) {
 				return
 			}
 			gotStanzas, gotLabels, gotErr = i.Recipient().WrapWithLabels(fileKey)
+		case "identity-in-decrypt":
+			// the plugin identity is the first of two identities handed to age.Decrypt; the file is
+			// addressed to the second (a native X25519 key) and its file key is the one the script sends
+			i, err := plugin.NewIdentity(idEnc, ui)
+			if err != nil {
+				gotErr = fmt.Errorf("harness: NewIdentity: %v", err)
+				return
+			}
+			second := &countingIdentity{secret: core.Pattern(91, 32)}
+			rf := &ref.File{FileKey: core.Pattern(16+5, 16), Nonce: core.Pattern(8, 16), Plain: []byte("plaintext for the plugin run")}
+			rf.Stanzas = []*ref.Stanza{ref.WrapX25519(rf.FileKey, core.Pattern(92, 32), ref.X25519Public(second.secret))}
+			inStanzas = []*age.Stanza{{Type: rf.Stanzas[0].Type, Args: rf.Stanzas[0].Args, Body: rf.Stanzas[0].Body}}
+			rd, err := age.Decrypt(bytes.NewReader(rf.Encode()), i, second)
+			decSecond = second.calls
+			if err != nil {
+				gotErr = err
+				return
+			}
+			pt, err := io.ReadAll(rd)
+			if err != nil || !bytes.Equal(pt, rf.Plain) {
+				gotErr = fmt.Errorf("harness-free: payload: %v", err)
+				return
+			}
+			decOK = true
 		default:
 			i, err := plugin.NewIdentity(idEnc, ui)
 			if err != nil {
@@ -734,7 +762,7 @@ func (en Engine) converse(p0 *Plan, c *core.Ctx) (verdict *core.Verdict) {
 			return core.Fail("C16.name", "plugin started under name %q for encoding of %q", hookName, p.Name)
 		}
 		wantProto := "recipient-v1"
-		if p.Machine == "identity" {
+		if p.Machine == "identity" || p.Machine == "identity-in-decrypt" {
 			wantProto = "identity-v1"
 		}
 		if hookProto != wantProto {
@@ -777,7 +805,7 @@ func (en Engine) converse(p0 *Plan, c *core.Ctx) (verdict *core.Verdict) {
 				return bad("first stanza must be add-identity <identity string>")
 			}
 		}
-		if p.Machine == "identity" {
+		if p.Machine == "identity" || p.Machine == "identity-in-decrypt" {
 			for i, in := range inStanzas {
 				s = next()
 				want := append([]string{"0", in.Type}, in.Args...)
@@ -831,11 +859,43 @@ func (en Engine) converse(p0 *Plan, c *core.Ctx) (verdict *core.Verdict) {
 			if gotErr == nil {
 				return core.Fail("C16.death_not_error", "the peer died mid-conversation (before message %d, cut %d) but the client reported success", p.DeathAt, p.DeathCut)
 			}
+			if p.Machine == "identity-in-decrypt" && decSecond != 0 {
+				return core.Fail("C16.death_as_incorrect_identity", "the peer died mid-conversation inside age.Decrypt but the following identity was consulted (%d time(s)) as if the plugin had merely not matched", decSecond)
+			}
 			if errors.Is(gotErr, age.ErrIncorrectIdentity) && !exp.errAcked {
 				return core.Fail("C16.death_as_incorrect_identity", "the peer died mid-conversation but the client reported an incorrect identity (other identities would be tried as if nothing happened): %v", gotErr)
 			}
 			return nil
 		}
+	}
+	if p.Machine == "identity-in-decrypt" {
+		c.Stats.Inc("probe.inside_age_decrypt")
+		switch exp.final {
+		case "incorrect":
+			// no file key from the plugin: the next identity must be tried and opens the file
+			if !decOK || decSecond != 1 {
+				return core.Fail("C16.next_identity_not_tried", "plugin finished without a file key inside age.Decrypt: the following identity must be consulted and decrypt the file; got ok=%v, second identity consulted %d time(s), err=%v", decOK, decSecond, gotErr)
+			}
+		case "filekey":
+			if len(exp.fileKey) == 16 {
+				if !decOK || decSecond != 0 {
+					return core.Fail("C16.decrypt_with_plugin_key", "plugin supplied the file key: Decrypt must succeed without consulting further identities; ok=%v second=%d err=%v", decOK, decSecond, gotErr)
+				}
+			} else if decOK {
+				return core.Fail("C16.decrypt_with_plugin_key", "plugin supplied a %d-byte key that cannot be the file key, yet Decrypt succeeded", len(exp.fileKey))
+			}
+		case "error":
+			if decOK || gotErr == nil {
+				return core.Fail("C16.error_expected", "protocol failure inside age.Decrypt but the file was decrypted (script %s)", skeleton)
+			}
+			if decSecond != 0 {
+				return core.Fail("C16.failure_not_fatal", "a plugin protocol failure must abort Decrypt; the following identity was consulted %d time(s)", decSecond)
+			}
+			if exp.errAcked && !strings.Contains(gotErr.Error(), exp.errText) {
+				return core.Fail("C16.error_text", "plugin error %q not in the returned error %q", exp.errText, gotErr)
+			}
+		}
+		return nil
 	}
 	switch exp.final {
 	case "stanzas":
@@ -933,4 +993,25 @@ func parseStanzas(b []byte) ([]*ref.Stanza, []byte, error) {
 		b = rest
 	}
 	return out, nil, nil
+}
+
+// countingIdentity is a native X25519 identity (reference implementation of the unwrap) that counts its calls.
+type countingIdentity struct {
+	secret []byte
+	calls  int
+}
+
+func (ci *countingIdentity) Unwrap(stanzas []*age.Stanza) ([]byte, error) {
+	ci.calls++
+	for _, s := range stanzas {
+		fk, err := ref.UnwrapX25519(&ref.Stanza{Type: s.Type, Args: s.Args, Body: s.Body}, ci.secret)
+		if err == ref.ErrNotMine {
+			continue
+		}
+		if err != nil {
+			return nil, err
+		}
+		return fk, nil
+	}
+	return nil, age.ErrIncorrectIdentity
 }
